@@ -38,7 +38,9 @@ def organic_skeleton(tp, max_heavy=9, rings=True, double=True,
     if aromatic and tp.chance(60):
         # start from an aromatic / hetero ring template
         tpl = tp.pick(["c1ccccc1", "c1ccncc1", "c1ccsc1", "c1cc[nH]c1",
-                       "C1CCCCC1", "C1CCCC1", "C1=CCCCC1", "C1CC1"])
+                       "C1CCCCC1", "C1CCCC1", "C1=CCCCC1", "C1CC1",
+                       "C1=CCCCCC1", "C1=COCCCC1", "C1=CCCCCCC1",
+                       "C1CCCCCC1", "C1=CCC1"])
         m = Chem.MolFromSmiles(tpl)
         Chem.Kekulize(m, clearAromaticFlags=True)
         rw = Chem.RWMol(m)
